@@ -37,11 +37,16 @@ Proof. reflexivity. Qed.
 Lemma gen_default_exclude_a_all_parsed : length default_exclude_a = length default_exclude_a_txt.
 Proof. reflexivity. Qed.
 
-(* every name listed in isDNSSECFailure is a known RFC 8914 constant, and the
-   set is the specification's *)
+(* every arm of the switch in isDNSSECFailure returns true, nothing else does,
+   and the set of codes is the specification's *)
 Lemma gen_dnssec_failure_codes : dnssec_failure_codes = [1; 2; 27; 5; 6; 7; 8; 9; 10; 11; 12].
 Proof. reflexivity. Qed.
-Lemma gen_dnssec_failure_all_known : length dnssec_failure_codes = length dnssec_failure_ede_names.
+Lemma gen_dnssec_failure_switch_shape :
+  forallb (fun p => Z.eqb (snd p) 1) dnssec_failure_switch = true /\ dnssec_failure_switch_default = (-2)%Z.
+Proof. split; reflexivity. Qed.
+Lemma gen_ede_cached : ede_cached = 13.
+Proof. reflexivity. Qed.
+Lemma gen_ede_forged : ede_forged = 4.
 Proof. reflexivity. Qed.
 Lemma gen_dnssec_failure_codes_spec c :
   existsb (N.eqb c) dnssec_failure_codes = existsb (N.eqb c) spec_dnssec_codes.
